@@ -55,7 +55,9 @@ def required(tier):
            'segment-distance:scalar', 'segment-distance:per-segment:constant_final',
            'segment-distance:per-segment:constant_initial', 'altitude:below-sea-level',
            'segment-distance:per-segment-sequence:constant_final', 'temperature:library-ISA-exactly',
-           'profile:more-than-257-points:per-segment:constant_final']
+           'profile:more-than-257-points:per-segment:constant_final',
+           'model:second-flight:Turboprop', 'model:second-flight:Piston',
+           'model:second-flight:Jet']
     return {'classes': cl, 'evaluations': 1000}
 
 
@@ -169,6 +171,7 @@ def run_shard(spec, rec):
         prof, pd_ = gen_profile(rng, p)
         mode = MODES[k % 4] if rng.random() < 0.8 else rng.choice(MODES)
         n_iter = rng.randint(1, 10)
+        second_use = random.Random(f'second-{spec["seed"]}-{k}').random() < 0.35
         desc = {'engine': p['engine_type'], 'mode': mode, 'n_iter': n_iter, **pd_,
                 'segment_distance': (prof['segment_distance'] if pd_['dx_kind'] == 'scalar'
                                      else list(prof['segment_distance'][:8]))}
@@ -261,6 +264,43 @@ def run_shard(spec, rec):
                                               'expected_fuel_flow': e_ff, 'branch': br,
                                               'groundspeed': float(prof['groundspeed'][i]),
                                               **desc})
+            # ---- second use of the SAME model object: the same altitudes and temperatures flown
+            # at other speeds (another speed schedule for the same vertical profile) -------------
+            if second_use:
+                first_calls = list(calls)
+                f_ = rng.uniform(0.75, 1.25)
+                prof2 = dict(prof)
+                prof2['v_tas'] = np.asarray(prof['v_tas'], float) * f_
+                prof2['groundspeed'] = np.asarray(prof['groundspeed'], float) * f_
+                kwargs.clear()
+                kwargs.update(prof2)
+                del calls[:]
+                try:
+                    call()
+                except Exception as e:  # noqa: BLE001
+                    raise Mismatch(f'the fuel-burn model raised {type(e).__name__} when the same '
+                                   'model object is used for a second flight',
+                                   {'error': f'{type(e).__name__}: {str(e)[:200]}',
+                                    'speed_factor': f_, **desc})
+                for (m_arg, sgr) in (calls[0], calls[-1]):
+                    for i in range(n):
+                        e_sgr, e_thr, e_ff, br = B.specific_ground_range(
+                            p, float(m_arg[i]), float(prof2['temperature'][i]),
+                            float(prof2['altitude'][i]), float(prof2['v_tas'][i]),
+                            float(prof2['rocd'][i]), float(prof2['acceleration'][i]),
+                            bool(prof2['in_cruise'][i]), float(prof2['groundspeed'][i]))
+                        rec.ev()
+                        if not rel(float(sgr[i]), e_sgr):
+                            raise Mismatch('second flight with the same model object (same '
+                                           'altitudes and temperatures, other speeds): specific '
+                                           'ground range differs from the BADA-3 equations',
+                                           {'point': i, 'sgr': float(sgr[i]), 'expected_sgr': e_sgr,
+                                            'branch': br, 'speed_factor': f_, **desc})
+                rec.cls('model:second-flight-same-vertical-profile-other-speeds',
+                        f'model:second-flight:{p["engine_type"]}')
+                kwargs.clear()
+                kwargs.update(prof)
+                calls[:] = first_calls
             # ---- the returned vector is the trapezoid integral of the LAST evaluation ---------
             sgr = calls[-1][1]
             inv = np.where(sgr < 1, 0.0, 1.0 / np.where(sgr < 1, 1.0, sgr))
